@@ -176,6 +176,14 @@ func cmdCheck(args []string) int {
 		timeout = 60
 	}
 	outDir := filepath.Join(outDirBase(), "out")
+	// obligations that do not belong to this property are not solved
+	for _, r := range run.results {
+		for _, o := range r.Obligations {
+			if o.Result.Status == "" && !run.counts(r, o) {
+				o.Result = SolverResult{Status: "skipped", Solver: "not-part-of-property"}
+			}
+		}
+	}
 	discharge(run.results, dischargeOpts{timeoutS: timeout, workers: 12})
 	if tier == "thorough" {
 		// second, independent discharge of every obligation with the other
